@@ -55,6 +55,12 @@ func (k *hKey) Get(name string) (interface{}, bool) {
 	}
 	return nil, false
 }
+func (k *hKey) Remove(name string) error {
+	if name == jwk.KeyIDKey {
+		k.kid, k.hasKid = "", false
+	}
+	return nil
+}
 func (k *hKey) Set(name string, v interface{}) error {
 	if name == jwk.KeyIDKey {
 		k.kid, k.hasKid = v.(string), true
